@@ -13,9 +13,17 @@ Transaction-Finished indication (No error, Data complete, File retained), no fau
 queued and no exception.  The proof is an induction over the tiles with the invariant "the
 destination file holds the first `k` tiles" (`Receiving`).
 
-Acknowledged mode, closure and arbitrary pacing are NOT covered by this theorem; they are explored
-end to end on implementation and model (randomised pacing over the whole configuration cross
-product), see MANIFEST / evidence.
+`C02_ack_delivery` (proved, same generality): the same for an acknowledged transfer (closure flag
+arbitrary) — Metadata, tiles, EOF; the ACK (EOF) is queued; after its retrieval the next call
+verifies the checksum, tells the user, queues the Finished PDU (No error, Data complete, File
+retained) and waits; the sender's ACK (Finished) ends the transaction: idle, file = `F`, one
+indication, no fault, no exception.  The sender's half of the closing handshake is
+`C02_source_eof_acked`, `C02_source_finished`, `C02_source_completion`; its PDU stream is C07.
+
+NOT covered by a theorem: unacknowledged mode with closure requested (one more forward lemma of the
+same kind), the composition of the two handlers into one run, and arbitrary fair pacing (several
+PDUs queued before a `state_machine` call); these are explored end to end on implementation and
+model (randomised pacing over the whole configuration cross product), see MANIFEST / evidence.
 -/
 set_option linter.unusedSimpArgs false
 set_option linter.unusedVariables false
@@ -272,5 +280,400 @@ theorem C02_unack_delivery (env : Env) (d0 : DestSt) (h : Hdr) (rc : RemoteCfg) 
         d0.inds.filter isFinished := by simp [afterMd, isFinished]
     rw [h1]
     cases env.cfg.indEofRecv <;> cases env.cfg.indFinished <;> simp [isFinished]
+
+/-! ## Acknowledged mode (receiver side) -/
+
+/-- a PDU header the receiver admits in an acknowledged transaction from a known sender -/
+structure AdmissibleA (env : Env) (rc : RemoteCfg) (h : Hdr) : Prop where
+  hdir : h.dir = .toRecv
+  hdst : h.dst.val = env.cfg.entityId.val
+  hsrc : lookupRemote env.cfg.remotes h.src.val = some rc
+  hmode : h.mode = .ack
+
+/-- receiver in the middle of an acknowledged file transfer without losses: stored content `P`,
+lost segment tracker empty, nothing queued, no fault so far -/
+structure ReceivingA (d : DestSt) (dst : String) (P : List UInt8) (rc : RemoteCfg) (t : Tid) (cks : Nat)
+    (conf : Hdr) : Prop where
+  hbusy : d.state = .busy
+  hstep : d.step = .RECEIVING_FILE_DATA
+  hready : d.numReady = 0
+  hqueue : d.queue = []
+  hconf : d.p.conf = conf
+  hmode : conf.mode = .ack
+  hname : d.p.fileName = dst
+  hfile : d.fs.get dst = some (.file P)
+  hprog : d.p.progress = P.length
+  hnoEof : d.p.fileSizeEof = none
+  hrc : d.p.remoteCfg = some rc
+  htid : d.p.tid = some t
+  hrej : d.rejects = []
+  hcks : d.p.cksType = cks
+  hcancel : d.p.canceled = false
+  hmo : d.p.metadataOnly = false
+  hflts : d.flts = []
+  hfin : d.p.fin = ⟨ccNoError, dcIncomplete, fsRetained, none⟩
+  htrk : d.p.trk = []
+  hlastE : d.p.lastEnd = P.length
+  hlastS : d.p.lastStart ≤ P.length
+  hmm : d.p.metadataMissing = false
+  hdef : d.p.deferredActive = false
+
+def tileP (p : Params) (P data : List UInt8) : Params :=
+  { p with progress := P.length + data.length, lastStart := P.length, lastEnd := P.length + data.length }
+
+/-- state after a tile (acknowledged mode) -/
+def afterTileA (d : DestSt) (dst : String) (P data : List UInt8) (env : Env) (t : Tid) : DestSt :=
+  { d with fs := d.fs.set dst (.file (P ++ data)), p := tileP d.p P data,
+           inds := d.inds ++ (if env.cfg.indSegRecv then [.segRecv (some t) P.length data.length] else []) }
+
+theorem C02_tile_ack (env : Env) (d : DestSt) (dst : String) (P data : List UInt8) (rc : RemoteCfg) (t : Tid)
+    (cks : Nat) (conf h : Hdr) (hr : ReceivingA d dst P rc t cks conf) (ha : AdmissibleA env rc h) (hd : data ≠ []) :
+    stateMachine env (some (.fd h P.length data)) d = .ok () (afterTileA d dst P data env t) ∧
+    ReceivingA (afterTileA d dst P data env t) dst (P ++ data) rc t cks conf := by
+  have hw : Fs.writeBytes P data P.length = P ++ data := by
+    have : data.isEmpty = false := by cases data <;> simp_all
+    simp [Fs.writeBytes, this]
+  have hlen : 0 < data.length := by cases data <;> simp_all
+  have hng : ¬ P.length > d.p.lastEnd := by simp [hr.hlastE]
+  have hge : P.length ≥ d.p.lastEnd := by simp [hr.hlastE]
+  have hnle : ¬ P.length + data.length ≤ P.length := by omega
+  have hm : d.p.conf.mode = .ack := by rw [hr.hconf]; exact hr.hmode
+  constructor
+  · cases hi : env.cfg.indSegRecv <;>
+    msimp [stateMachine, stateMachineWith, checkInsertedPacket, Pdu.hdr, ha.hdir, ha.hdst, ha.hsrc, Pdu.kind,
+      Route.getPacketDestination, hr.hbusy, transmissionMode, hm, nonIdleFsm,
+      fsmAdvancementAfterPacketsWereSent, hr.hqueue, hr.hstep, fsmFromReceiving, handleFdOrEofPdu, handleFdPdu,
+      fdIndication, hi, getP, emitInd, hr.htid, fdLostSegments, lostSegmentHandling, hng, hge, hnle,
+      fdWrite, vfsWriteData, hr.hrej, hr.hname,
+      Fs.writeData, hr.hfile, hw, fdAfterWrite, sizeErrOf, modP, hr.hnoEof, hr.hprog, fsmFromWaitingForMetadata,
+      fsmFromCheckLimit, fsmFromWaitingForMissingData, fsmFromTransferCompletion, fsmFromSendingFinishedPdu,
+      fsmFromWaitingForFinishedAck, afterTileA, tileP, hr.hfin]
+  · exact { hbusy := hr.hbusy, hstep := hr.hstep, hready := hr.hready, hqueue := hr.hqueue, hconf := hr.hconf,
+            hmode := hr.hmode,
+            hname := hr.hname, hfile := by simp [afterTileA, Fs.C17.get_set_same],
+            hprog := by simp [afterTileA, tileP], hnoEof := hr.hnoEof, hrc := hr.hrc, htid := hr.htid, hrej := hr.hrej,
+            hcks := hr.hcks, hcancel := hr.hcancel, hmo := hr.hmo, hflts := hr.hflts,
+            hfin := hr.hfin, htrk := hr.htrk, hlastE := by simp [afterTileA, tileP],
+            hlastS := by simp [afterTileA, tileP], hmm := hr.hmm, hdef := hr.hdef }
+
+/-- parameter block after the Metadata PDU (acknowledged mode; closure flag as received) -/
+def mdParamsA (h : Hdr) (rc : RemoteCfg) (closure : Bool) (cks size : Nat) (dname : String) : Params :=
+  { conf := ⟨.toSend, h.mode, h.crc, h.large, h.src, h.dst, h.seq⟩, tid := some ⟨h.src, h.seq⟩,
+    remoteCfg := some rc, cksType := cks, closure := closure, fileName := dname, fileSize := some size,
+    fin := ⟨ccNoError, dcIncomplete, fsRetained, none⟩ }
+
+def afterMdA (env : Env) (d : DestSt) (h : Hdr) (rc : RemoteCfg) (closure : Bool) (cks size : Nat)
+    (sname dname : String) (msgs : Option (List Msg)) : DestSt :=
+  { d with state := .busy, step := .RECEIVING_FILE_DATA, fs := d.fs.set dname (.file []),
+           p := mdParamsA h rc closure cks size dname,
+           inds := d.inds ++ [.mdRecv (some ⟨h.src, h.seq⟩) h.src (some size) (some sname) (some dname) msgs] }
+
+theorem C02_metadata_ack (env : Env) (d : DestSt) (h : Hdr) (rc : RemoteCfg) (closure : Bool) (cks size : Nat)
+    (sname dname : String) (msgs : Option (List Msg)) (ha : AdmissibleA env rc h)
+    (hidle : d.state = .idle) (hq : d.queue = []) (hr : d.numReady = 0) (hrej : d.rejects = [])
+    (hfl : d.flts = [])
+    (hnd : Fs.isDir d.fs dname = false)
+    (hok : (∃ old, d.fs.get dname = some (.file old)) ∨
+           (Fs.exists' d.fs dname = false ∧ Fs.parentIsDir d.fs dname = true)) :
+    stateMachine env (some (.md h closure cks size (some sname) (some dname) msgs)) d =
+      .ok () (afterMdA env d h rc closure cks size sname dname msgs) ∧
+    ReceivingA (afterMdA env d h rc closure cks size sname dname msgs) dname [] rc ⟨h.src, h.seq⟩ cks
+      ⟨.toSend, h.mode, h.crc, h.large, h.src, h.dst, h.seq⟩ := by
+  constructor
+  · rcases hok with ⟨old, hf⟩ | ⟨h1, h2⟩
+    · have hex : Fs.exists' d.fs dname = true := by simp [Fs.exists', hf]
+      have htr : Fs.truncateFile d.fs dname = .ok (d.fs.set dname (.file [])) := by simp [Fs.truncateFile, hf]
+      msimp [stateMachine, stateMachineWith, checkInsertedPacket, Pdu.hdr, ha.hdir, ha.hdst, ha.hsrc, Pdu.kind,
+        Route.getPacketDestination, hidle, transmissionMode, idleFsm, startTransaction, modP,
+        commonFirstPacketHandler, handleMetadataPacket, getP, initVfsHandling, hnd, hex, htr, emitInd, hr,
+        nonIdleFsm, fsmAdvancementAfterPacketsWereSent, hq, fsmFromReceiving, handleFdOrEofPdu,
+        fsmFromWaitingForMetadata, fsmFromCheckLimit, fsmFromWaitingForMissingData, fsmFromTransferCompletion,
+        fsmFromSendingFinishedPdu, fsmFromWaitingForFinishedAck, afterMdA, mdParamsA, ha.hmode]
+    · have hc : Fs.createFile d.fs dname = (Fs.CREATE_SUCCESS, d.fs.set dname (.file [])) := by
+        simp [Fs.createFile, h1, h2]
+      msimp [stateMachine, stateMachineWith, checkInsertedPacket, Pdu.hdr, ha.hdir, ha.hdst, ha.hsrc, Pdu.kind,
+        Route.getPacketDestination, hidle, transmissionMode, idleFsm, startTransaction, modP,
+        commonFirstPacketHandler, handleMetadataPacket, getP, initVfsHandling, hnd, h1, hc, emitInd, hr,
+        nonIdleFsm, fsmAdvancementAfterPacketsWereSent, hq, fsmFromReceiving, handleFdOrEofPdu,
+        fsmFromWaitingForMetadata, fsmFromCheckLimit, fsmFromWaitingForMissingData, fsmFromTransferCompletion,
+        fsmFromSendingFinishedPdu, fsmFromWaitingForFinishedAck, afterMdA, mdParamsA, ha.hmode]
+  · exact { hbusy := rfl, hstep := rfl, hready := by simp [afterMdA, hr], hqueue := by simp [afterMdA, hq],
+            hconf := rfl, hmode := ha.hmode, hname := rfl,
+            hfile := by simp [afterMdA, Fs.C17.get_set_same], hprog := rfl, hnoEof := rfl, hrc := rfl,
+            htid := rfl, hrej := by simp [afterMdA, hrej], hcks := rfl, hcancel := rfl,
+            hmo := rfl, hflts := by simp [afterMdA, hfl], hfin := rfl, htrk := rfl, hlastE := rfl,
+            hlastS := by simp [afterMdA, mdParamsA], hmm := rfl, hdef := rfl }
+
+def feedA := @feed
+
+theorem C02_tiles_ack (env : Env) (h conf : Hdr) (rc : RemoteCfg) (t : Tid) (cks : Nat) (dst : String)
+    (ha : AdmissibleA env rc h) :
+    ∀ (cs : List (List UInt8)) (P : List UInt8) (d : DestSt), (∀ c ∈ cs, c ≠ []) →
+      ReceivingA d dst P rc t cks conf →
+      ∃ d', feed env h cs P.length d = some d' ∧ ReceivingA d' dst (P ++ cs.flatten) rc t cks conf ∧
+        (∀ q, q ≠ dst → d'.fs.get q = d.fs.get q) ∧
+        d'.inds.filter isFinished = d.inds.filter isFinished := by
+  intro cs
+  induction cs with
+  | nil => intro P d _ hr; exact ⟨d, rfl, by simpa using hr, fun _ _ => rfl, rfl⟩
+  | cons c cs ih =>
+    intro P d hne hr
+    have hc : c ≠ [] := hne c (by simp)
+    obtain ⟨hcall, hr'⟩ := C02_tile_ack env d dst P c rc t cks conf h hr ha hc
+    obtain ⟨d', hf, hR, hother, hfin⟩ := ih (P ++ c) _ (fun x hx => hne x (by simp [hx])) hr'
+    refine ⟨d', ?_, ?_, ?_, ?_⟩
+    · simp only [feed, hcall]
+      simpa using hf
+    · simpa [List.append_assoc] using hR
+    · intro q hq'
+      rw [hother q hq']
+      simp [afterTileA, Fs.C17.get_set_other _ _ _ _ hq']
+    · rw [hfin]
+      simp only [afterTileA]
+      split <;> simp [isFinished]
+
+def eofP (p : Params) (crc : List UInt8) (size : Nat) : Params :=
+  { p with crc32 := crc, fileSizeEof := some size }
+
+/-- state after the EOF PDU: the ACK of the EOF is queued -/
+def afterEofA (env : Env) (d : DestSt) (t : Tid) (crc : List UInt8) (size : Nat) : DestSt :=
+  { d with step := .SENDING_EOF_ACK_PDU, p := eofP d.p crc size,
+           queue := [mkAck d.p.conf dtEof ccNoError tsActive], numReady := 1,
+           inds := d.inds ++ (if env.cfg.indEofRecv then [.eofRecv t] else []) }
+
+/-- **EOF (acknowledged mode).**  With everything stored, the EOF (No error) is acknowledged: exactly
+one ACK (EOF) PDU is queued; the file is untouched, no fault -/
+theorem C02_eof_ack (env : Env) (d : DestSt) (dst : String) (P crc : List UInt8) (rc : RemoteCfg) (t : Tid)
+    (cks : Nat) (conf h : Hdr) (hr : ReceivingA d dst P rc t cks conf) (ha : AdmissibleA env rc h) :
+    stateMachine env (some (.eof h ccNoError crc P.length none)) d = .ok () (afterEofA env d t crc P.length) := by
+  have hnlt : ¬ P.length < P.length := by omega
+  have hngt : ¬ P.length > P.length := by omega
+  have hm : d.p.conf.mode = .ack := by rw [hr.hconf]; exact hr.hmode
+  cases hi : env.cfg.indEofRecv <;>
+  msimp [stateMachine, stateMachineWith, checkInsertedPacket, Pdu.hdr, ha.hdir, ha.hdst, ha.hsrc, Pdu.kind,
+    Route.getPacketDestination, hr.hbusy, transmissionMode, hm, nonIdleFsm,
+    fsmAdvancementAfterPacketsWereSent, hr.hqueue, hr.hstep, fsmFromReceiving, handleFdOrEofPdu, handleEofPdu,
+    modP, hi, getP, hr.htid, emitInd, handleNoErrorEof, hr.hprog, hnlt, hngt, noErrorEofVerify,
+    fileTransferCompleteTransition, prepareEofAckPacket, addPacket, hr.hready,
+    fsmFromWaitingForMetadata, fsmFromCheckLimit,
+    fsmFromWaitingForMissingData, fsmFromTransferCompletion, fsmFromSendingFinishedPdu, fsmFromWaitingForFinishedAck,
+    afterEofA, eofP, hr.hfin, ccNoError, dtEof]
+
+def finP (p : Params) (now ms : Nat) : Params :=
+  { p with fin := ⟨ccNoError, dcComplete, fsRetained, none⟩, ackTimer := some ⟨now, ms⟩, ackCounter := 0 }
+
+/-- state after the call that follows the retrieval of the ACK (EOF): checksum verified, user told,
+Finished PDU queued, waiting for its ACK -/
+def afterVerifyA (env : Env) (d : DestSt) (t : Tid) (rc : RemoteCfg) : DestSt :=
+  { d with step := .WAITING_FOR_FINISHED_ACK, p := finP d.p env.now rc.ackMs,
+           queue := [mkFin d.p.conf ⟨ccNoError, dcComplete, fsRetained, none⟩], numReady := 1,
+           inds := d.inds ++ (if env.cfg.indFinished
+             then [.finished (some t) ⟨ccNoError, dcComplete, fsRetained, none⟩] else []) }
+
+/-- the receiver after the EOF was acknowledged and the ACK retrieved by the user -/
+structure Acked (d : DestSt) (dst : String) (F crc : List UInt8) (rc : RemoteCfg) (t : Tid) (cks : Nat)
+    (conf : Hdr) : Prop where
+  hbusy : d.state = .busy
+  hstep : d.step = .SENDING_EOF_ACK_PDU
+  hready : d.numReady = 0
+  hqueue : d.queue = []
+  hconf : d.p.conf = conf
+  hmode : conf.mode = .ack
+  hname : d.p.fileName = dst
+  hfile : d.fs.get dst = some (.file F)
+  hprog : d.p.progress = F.length
+  hcrc : d.p.crc32 = crc
+  hrc : d.p.remoteCfg = some rc
+  htid : d.p.tid = some t
+  hcks : d.p.cksType = cks
+  hcancel : d.p.canceled = false
+  hmo : d.p.metadataOnly = false
+  hfin : d.p.fin = ⟨ccNoError, dcIncomplete, fsRetained, none⟩
+  htrk : d.p.trk = []
+  hmm : d.p.metadataMissing = false
+
+/-- **Verification and Finished PDU.**  The next call verifies the checksum of the stored file
+against the EOF's, reports the completed transaction to the user (No error, Data complete, File
+retained), queues exactly one Finished PDU with those values and starts waiting for its ACK -/
+theorem C02_verify_ack (env : Env) (d : DestSt) (dst : String) (F crc : List UInt8) (rc : RemoteCfg) (t : Tid)
+    (cks : Nat) (conf : Hdr) (hr : Acked d dst F crc rc t cks conf) (hms : rc.ackMs ≠ 0)
+    (hver : cks = 15 ∨ Fs.calcChecksum d.fs (Checksum.CksType.ofNat cks) dst F.length 4096 = .ok crc) :
+    stateMachine env none d = .ok () (afterVerifyA env d t rc) := by
+  unfold stateMachine
+  generalize (stateMachineWith env none (stateMachineWith env none (throw Err.recursionError))) = rec
+  have hm : d.p.conf.mode = .ack := by rw [hr.hconf]; exact hr.hmode
+  rcases hver with hnull | hc
+  · cases hf : env.cfg.indFinished <;>
+    msimp [stateMachineWith, hr.hbusy, nonIdleFsm, fsmAdvancementAfterPacketsWereSent, hr.hqueue,
+      hr.hstep, hr.hcancel, hr.htrk, hr.hmm, checksumVerify, hr.hcks, hnull, markComplete, modP,
+      fsmFromReceiving, fsmFromWaitingForMetadata, fsmFromCheckLimit, fsmFromWaitingForMissingData,
+      fsmFromTransferCompletion, handleTransferCompletion, noticeOfCompletion, hf, getP, emitInd, hr.htid,
+      transmissionMode, hm, fsmFromSendingFinishedPdu, hr.hready, prepareFinishedPdu, addPacket,
+      handleFinishedPduSent, startPositiveAckProcedure, hr.hrc, fsmFromWaitingForFinishedAck,
+      handleWaitingForFinishedAck, handlePositiveAckProcedures, Timer.timedOut, hms, afterVerifyA, finP, hr.hfin]
+  · by_cases hnull : cks = 15
+    · cases hf : env.cfg.indFinished <;>
+      msimp [stateMachineWith, hr.hbusy, nonIdleFsm, fsmAdvancementAfterPacketsWereSent, hr.hqueue,
+        hr.hstep, hr.hcancel, hr.htrk, hr.hmm, checksumVerify, hr.hcks, hnull, markComplete, modP,
+        fsmFromReceiving, fsmFromWaitingForMetadata, fsmFromCheckLimit, fsmFromWaitingForMissingData,
+        fsmFromTransferCompletion, handleTransferCompletion, noticeOfCompletion, hf, getP, emitInd, hr.htid,
+        transmissionMode, hm, fsmFromSendingFinishedPdu, hr.hready, prepareFinishedPdu, addPacket,
+        handleFinishedPduSent, startPositiveAckProcedure, hr.hrc, fsmFromWaitingForFinishedAck,
+        handleWaitingForFinishedAck, handlePositiveAckProcedures, Timer.timedOut, hms, afterVerifyA, finP, hr.hfin]
+    · cases hf : env.cfg.indFinished <;>
+      msimp [stateMachineWith, hr.hbusy, nonIdleFsm, fsmAdvancementAfterPacketsWereSent, hr.hqueue,
+        hr.hstep, hr.hcancel, hr.htrk, hr.hmm, checksumVerify, hr.hcks, hnull, hr.hmo, hr.hname, hr.hprog, hc,
+        hr.hcrc, markComplete, modP,
+        fsmFromReceiving, fsmFromWaitingForMetadata, fsmFromCheckLimit, fsmFromWaitingForMissingData,
+        fsmFromTransferCompletion, handleTransferCompletion, noticeOfCompletion, hf, getP, emitInd, hr.htid,
+        transmissionMode, hm, fsmFromSendingFinishedPdu, hr.hready, prepareFinishedPdu, addPacket,
+        handleFinishedPduSent, startPositiveAckProcedure, hr.hrc, fsmFromWaitingForFinishedAck,
+        handleWaitingForFinishedAck, handlePositiveAckProcedures, Timer.timedOut, hms, afterVerifyA, finP, hr.hfin]
+
+/-- **ACK (Finished).**  Once the Finished PDU has been retrieved, the sender's ACK of it ends the
+transaction: the handler is idle -/
+theorem C02_finished_acked (env : Env) (d : DestSt) (rc : RemoteCfg) (h : Hdr) (cond ts : Nat)
+    (ha : AdmissibleA env rc h) (hb : d.state = .busy) (hstep : d.step = .WAITING_FOR_FINISHED_ACK)
+    (hq : d.queue = []) (hm : d.p.conf.mode = .ack) :
+    stateMachine env (some (.ack h dtFinished cond ts)) d =
+      .ok () { d with state := .idle, step := .IDLE, p := {} } := by
+  msimp [stateMachine, stateMachineWith, checkInsertedPacket, Pdu.hdr, ha.hdir, ha.hdst, ha.hsrc, Pdu.kind,
+    dtFinished, dtEof, Route.getPacketDestination, hb, transmissionMode, hm, nonIdleFsm,
+    fsmAdvancementAfterPacketsWereSent, hq, hstep, fsmFromReceiving, fsmFromWaitingForMetadata,
+    fsmFromCheckLimit, fsmFromWaitingForMissingData, fsmFromTransferCompletion, fsmFromSendingFinishedPdu,
+    fsmFromWaitingForFinishedAck, handleWaitingForFinishedAck, resetInternal]
+
+/-- the user retrieves everything that is queued -/
+def drained (d : DestSt) : DestSt := { d with queue := [], numReady := 0 }
+
+/-- **Delivery over a fault-free link, acknowledged mode** (receiver side; closure flag arbitrary).
+For every file content `F`, every way of cutting it into non-empty consecutive pieces, every header
+configuration the receiver admits, checksum type and indication setting: Metadata, the pieces in
+order, EOF — then the user retrieves the ACK (EOF), the next call verifies and queues the Finished
+PDU, the user retrieves it, the sender's ACK (Finished) arrives — end with
+
+* the receiver idle, nothing queued, no fault callback, no exception in any call;
+* the destination file equal to `F`, every other path as before;
+* exactly one ACK (EOF) and one Finished PDU (No error, Data complete, File retained) emitted;
+* exactly one Transaction-Finished indication with the same three values (when enabled). -/
+theorem C02_ack_delivery (env env2 env3 : Env) (d0 : DestSt) (h hack : Hdr) (rc : RemoteCfg) (closure : Bool)
+    (cks : Nat) (sname dname : String) (msgs : Option (List Msg)) (F crc : List UInt8) (cs : List (List UInt8))
+    (cond ts : Nat)
+    (ha : AdmissibleA env rc h) (ha3 : AdmissibleA env3 rc hack) (hms : rc.ackMs ≠ 0)
+    (hidle : d0.state = .idle) (hq : d0.queue = []) (hr : d0.numReady = 0) (hrej : d0.rejects = [])
+    (hfl : d0.flts = []) (hnd : Fs.isDir d0.fs dname = false)
+    (hok : (∃ old, d0.fs.get dname = some (.file old)) ∨
+           (Fs.exists' d0.fs dname = false ∧ Fs.parentIsDir d0.fs dname = true))
+    (hcs : cs.flatten = F) (hne : ∀ c ∈ cs, c ≠ [])
+    (hcrc : cks = 15 ∨ ∀ fs : Fs, fs.get dname = some (.file F) →
+      Fs.calcChecksum fs (Checksum.CksType.ofNat cks) dname F.length 4096 = .ok crc) :
+    ∃ d1 d2 d3 d4 d5,
+      stateMachine env (some (.md h closure cks F.length (some sname) (some dname) msgs)) d0 = .ok () d1 ∧
+      feed env h cs 0 d1 = some d2 ∧
+      stateMachine env (some (.eof h ccNoError crc F.length none)) d2 = .ok () d3 ∧
+      d3.queue = [mkAck d1.p.conf dtEof ccNoError tsActive] ∧
+      stateMachine env2 none (drained d3) = .ok () d4 ∧
+      d4.queue = [mkFin d1.p.conf ⟨ccNoError, dcComplete, fsRetained, none⟩] ∧
+      stateMachine env3 (some (.ack hack dtFinished cond ts)) (drained d4) = .ok () d5 ∧
+      d5.state = .idle ∧ d5.queue = [] ∧ d5.flts = [] ∧
+      d5.fs.get dname = some (.file F) ∧ (∀ q, q ≠ dname → d5.fs.get q = d0.fs.get q) ∧
+      d5.inds.filter isFinished = d0.inds.filter isFinished ++
+        (if env2.cfg.indFinished
+          then [.finished (some ⟨h.src, h.seq⟩) ⟨ccNoError, dcComplete, fsRetained, none⟩] else []) := by
+  obtain ⟨hmd, hR1⟩ := C02_metadata_ack env d0 h rc closure cks F.length sname dname msgs ha hidle hq hr hrej hfl hnd hok
+  obtain ⟨d2, hfeed, hR2, hother, hfin2⟩ := C02_tiles_ack env h _ rc _ cks dname ha cs [] _ hne hR1
+  simp only [List.nil_append, hcs, List.length_nil] at hfeed hR2
+  have heof := C02_eof_ack env d2 dname F crc rc _ cks _ h hR2 ha
+  -- after the user retrieved the ACK (EOF)
+  have hA : Acked (drained (afterEofA env d2 ⟨h.src, h.seq⟩ crc F.length)) dname F crc rc ⟨h.src, h.seq⟩ cks
+      ⟨.toSend, h.mode, h.crc, h.large, h.src, h.dst, h.seq⟩ :=
+    { hbusy := hR2.hbusy, hstep := rfl, hready := rfl, hqueue := rfl, hconf := hR2.hconf, hmode := hR2.hmode,
+      hname := hR2.hname, hfile := hR2.hfile, hprog := hR2.hprog, hcrc := rfl, hrc := hR2.hrc, htid := hR2.htid,
+      hcks := hR2.hcks, hcancel := hR2.hcancel, hmo := hR2.hmo, hfin := hR2.hfin, htrk := hR2.htrk, hmm := hR2.hmm }
+  have hver : cks = 15 ∨ Fs.calcChecksum (drained (afterEofA env d2 ⟨h.src, h.seq⟩ crc F.length)).fs
+      (Checksum.CksType.ofNat cks) dname F.length 4096 = .ok crc := by
+    rcases hcrc with h1 | h1
+    · exact Or.inl h1
+    · exact Or.inr (h1 _ hR2.hfile)
+  have hv := C02_verify_ack env2 _ dname F crc rc _ cks _ hA hms hver
+  have hfa := C02_finished_acked env3
+    (drained (afterVerifyA env2 (drained (afterEofA env d2 ⟨h.src, h.seq⟩ crc F.length)) ⟨h.src, h.seq⟩ rc))
+    rc hack cond ts ha3 hR2.hbusy rfl rfl
+    (by simp [drained, afterVerifyA, finP, afterEofA, eofP, hR2.hconf, ha.hmode])
+  refine ⟨_, d2, _, _, _, hmd, hfeed, heof, ?_, hv, ?_, hfa, rfl, rfl, ?_, ?_, ?_, ?_⟩
+  · simp [afterEofA, hR2.hconf, afterMdA, mdParamsA]
+  · simp [afterVerifyA, drained, afterEofA, eofP, hR2.hconf, afterMdA, mdParamsA]
+  · simp [drained, afterVerifyA, afterEofA, hR2.hflts]
+  · simp [drained, afterVerifyA, afterEofA, hR2.hfile]
+  · intro q hq'
+    simp only [drained, afterVerifyA, afterEofA]
+    rw [hother q hq']
+    simp [afterMdA, Fs.C17.get_set_other _ _ _ _ hq']
+  · simp only [drained, afterVerifyA, afterEofA, List.filter_append, hfin2]
+    have h1 : (afterMdA env d0 h rc closure cks F.length sname dname msgs).inds.filter isFinished =
+        d0.inds.filter isFinished := by simp [afterMdA, isFinished]
+    rw [h1]
+    cases env.cfg.indEofRecv <;> cases env2.cfg.indFinished <;> simp [isFinished]
+
+
+/-! ## Acknowledged mode (sender side, after the EOF) -/
+
+/-- a PDU the sender admits for its acknowledged transaction: direction towards the sender, its own
+entity id as source, the configured destination, the transaction's sequence number -/
+structure AdmissibleS (env : Source.Env) (s : Source.SrcSt) (rc : RemoteCfg) (h : Hdr) : Prop where
+  hdir : h.dir = .toSend
+  hsrc : h.src.val = env.cfg.entityId.val
+  hrc : s.p.remoteCfg = some rc
+  hdst : h.dst.val = rc.entityId.val
+  hseq : h.seq.val = s.p.conf.seq.val
+  hmode : s.p.conf.mode = .ack
+
+/-- **ACK (EOF) at the sender**: it stops waiting for it and waits for the Finished PDU -/
+theorem C02_source_eof_acked (env : Source.Env) (s : Source.SrcSt) (rc : RemoteCfg) (h : Hdr) (c ts : Nat)
+    (req : Source.PutReq)
+    (ha : AdmissibleS env s rc h) (hb : s.state = .busy) (hstep : s.step = .WAITING_FOR_EOF_ACK)
+    (hq : s.queue = []) (hreq : s.putReq = some req) (hct : s.p.checkTimer = none) :
+    Source.stateMachine env (some (.ack h dtEof c ts)) s = .ok () { s with step := .WAITING_FOR_FINISHED } := by
+  msimp [Source.stateMachine, Source.checkInsertedPacket, Pdu.hdr, ha.hdir, ha.hsrc, ha.hrc, ha.hdst, ha.hseq,
+    Pdu.kind, dtEof, Route.getPacketDestination, ha.hmode, hstep, hb, Source.fsmNonIdle,
+    Source.fsmAdvancementAfterPacketsWereSent, hq, hreq, Source.fsmFromSendingFileData, Source.fsmFromSendingEof,
+    Source.fsmFromWaitingForEofAck, Source.handleWaitingForAck, Source.handleRetransmission,
+    Source.fsmFromWaitingForFinished, Source.handleWaitForFinish, Source.transmissionMode, Source.getP, hct,
+    Source.fsmFromNoticeOfCompletion]
+
+def finSrcP (p : Source.Params) (fp : FinishedParams) : Source.Params := { p with finishedParams := some fp }
+
+/-- **Finished PDU at the sender**: it is recorded and acknowledged — exactly one ACK (Finished) queued -/
+theorem C02_source_finished (env : Source.Env) (s : Source.SrcSt) (rc : RemoteCfg) (h : Hdr) (fp : FinishedParams)
+    (req : Source.PutReq)
+    (ha : AdmissibleS env s rc h) (hb : s.state = .busy) (hstep : s.step = .WAITING_FOR_FINISHED)
+    (hq : s.queue = []) (hreq : s.putReq = some req) :
+    Source.stateMachine env (some (.fin h fp)) s =
+      .ok () { s with step := .SENDING_ACK_OF_FINISHED, p := finSrcP s.p fp,
+                      queue := [Source.mkAck s.p.conf dtFinished fp.cond tsActive],
+                      numReady := s.numReady + 1 } := by
+  msimp [Source.stateMachine, Source.checkInsertedPacket, Pdu.hdr, ha.hdir, ha.hsrc, ha.hrc, ha.hdst, ha.hseq,
+    Pdu.kind, Route.getPacketDestination, ha.hmode, hstep, hb, Source.fsmNonIdle,
+    Source.fsmAdvancementAfterPacketsWereSent, hq, hreq, Source.fsmFromSendingFileData, Source.fsmFromSendingEof,
+    Source.fsmFromWaitingForEofAck,
+    Source.fsmFromWaitingForFinished, Source.handleWaitForFinish, Source.transmissionMode,
+    Source.handleRetransmission, Source.modP, Source.getP, Source.addPacket,
+    Source.fsmFromNoticeOfCompletion, finSrcP]
+
+/-- **Completion at the sender**: once the ACK (Finished) has been retrieved, the next call reports
+the transaction to the user with the Finished PDU's condition, delivery and file status, and the
+handler is idle -/
+theorem C02_source_completion (env : Source.Env) (s : Source.SrcSt) (fp : FinishedParams) (tid : Tid)
+    (req : Source.PutReq)
+    (hb : s.state = .busy) (hstep : s.step = .SENDING_ACK_OF_FINISHED) (hq : s.queue = [])
+    (hreq : s.putReq = some req) (hfp : s.p.finishedParams = some fp) (htid : s.p.tid = some tid) :
+    Source.stateMachine env none s =
+      .ok () { s with state := .idle, step := .IDLE, p := {},
+                      inds := s.inds ++ (if env.cfg.indFinished then [.finished (some tid) fp] else []) } := by
+  cases hi : env.cfg.indFinished <;>
+  msimp [Source.stateMachine, hb, Source.fsmNonIdle, Source.fsmAdvancementAfterPacketsWereSent, hq, hstep, hreq,
+    Source.fsmFromSendingFileData, Source.fsmFromSendingEof, Source.fsmFromWaitingForEofAck,
+    Source.fsmFromWaitingForFinished, Source.fsmFromNoticeOfCompletion, Source.noticeOfCompletion, hi,
+    Source.getP, htid, hfp, Source.modP, Source.emitInd, Source.resetInternal]
 
 end Cfdp.C02
